@@ -101,6 +101,21 @@ engine_a("C14",
     level_text="Seeded search over forged-packet histories: for every forged delivery the receiver's full observable state (hostmap shape, per-tunnel remote/roaming, liveness flags, replay window, send counter, relay state, pending handshakes, lighthouse cache, relay usage), its tun output and its outbox (a recv_error to the datagram's source excepted) are compared before/after. Forgeries whose type field became Handshake or RecvError are outside the statement (those two types are unauthenticated by design) and are skipped, not judged. Evidence, not proof.",
 )
 
+engine_a("C10",
+    scenarios=["C10.mesh"],
+    technique="deterministic whole-overlay simulation with an on-path attacker that stores every first handshake message and re-delivers it later from its original source; hostmap shape and responder output compared around every stage-1 delivery",
+    rule="one run = 2-3 node static overlay (v1/v2, both curves, no preferred_ranges) for 15-45 s (thorough: up to 150 s) holding several tunnels per pair through forced rehandshakes from both sides, local and remote closes, partitions, plus 30-150 stage-1 replays and natural transport duplicates; distinct = distinct abstract trace hash; non-trivial = the run contained both a replay of a still-held tunnel's first message and a first message older than the existing responder-side primary",
+    level_text="Seeded search over handshake/replay histories: for every first handshake message delivered (replayed by the attacker, duplicated by the network, or genuine) the responder's pre-state decides the case. If it still holds the tunnel created from exactly those bytes, the set of tunnels and every address's ordered tunnel list must be unchanged and the only output allowed is the byte-identical original reply to the source. If its primary for that peer was accepted as responder and reports a time >= the message's (learned when the message first created a tunnel), nothing may be created or replaced. Replays against initiator-side primaries are not judged (the statement excludes them). Evidence, not proof. Limit: peer-reported times come from the single bubble clock.",
+)
+
+engine_a("C31",
+    scenarios=["C31.race"],
+    technique="deterministic whole-overlay simulation of two nodes handshaking toward each other at seeded offsets under loss/duplication/reordering, with connection-manager ticks interleaved; swap decisions observed around every traffic check; bounded-liveness check in a quiet suffix",
+    rule="one run = two racing nodes (optionally behind a lighthouse, v1/v2) starting handshakes 0-120 ms apart, 0-3 rounds of concurrent rehandshakes against the existing tunnel, optional restart of one side, all transport faults, then a quiet suffix (faults off, pings both ways every 400 ms) of 3*(alive+pending_deletion)+8 s; distinct = distinct abstract trace hash; non-trivial = both nodes had a pending handshake for each other at once or their first messages crossed on the wire",
+    level_text="Seeded search over delivery interleavings of the four handshake messages and the data behind them: (i) whenever a node's primary tunnel for the peer is complete and held at both ends, a packet sent on it is delivered (synchronous probe every 5th event); (ii) over the whole run at most one of the two nodes changes its primary by a swap decision inside a connection-manager check; (iii) bounded liveness: after the quiet suffix each side holds exactly one tunnel for the other, their indexes cross-match and pings still arrive. Evidence, not proof. The relay variant is not in this check.",
+    quick=tier(1500, 40),
+)
+
 NOT_APPLICABLE = {
     "C03": "pure encode/decode round trip over input bytes; no clock, schedule, fault or second party for a simulator to control",
     "C04": "pure function of (certificate to sign, signer); offline CLI; nothing to schedule or fault",
